@@ -10,17 +10,41 @@ import (
 	"github.com/Trisia/randomness"
 )
 
+// workerFailure 记录工作器读取随机源时遇到的第一个错误
+type workerFailure struct {
+	mu  sync.Mutex
+	err error
+}
+
+func (f *workerFailure) set(err error) {
+	f.mu.Lock()
+	if f.err == nil {
+		f.err = err
+	}
+	f.mu.Unlock()
+}
+
+func (f *workerFailure) get() error {
+	f.mu.Lock()
+	defer f.mu.Unlock()
+	return f.err
+}
+
 // 工作器
 // jobs: 启动参数
 // source: 随机源
 // n: 读取字节数
 // round: 检测方式
 // counter: 结果集统计
-func worker(jobs chan int, source io.Reader, n int, round func([]byte) []*randomness.TestResult, counter []int32, distributions [][]float64, wait *sync.WaitGroup) {
+// failure: 随机源读取错误记录
+func worker(jobs chan int, source io.Reader, n int, round func([]byte) []*randomness.TestResult, counter []int32, distributions [][]float64, wait *sync.WaitGroup, failure *workerFailure) {
 	buf := make([]byte, n, n*2)
 	for i := range jobs {
 		_, err := source.Read(buf)
 		if err != nil {
+			// 读取失败也必须通知完成，否则 wg.Wait() 将永久阻塞
+			failure.set(err)
+			wait.Done()
 			continue
 		}
 		resArr := round(buf)
@@ -35,14 +59,15 @@ func worker(jobs chan int, source io.Reader, n int, round func([]byte) []*random
 }
 
 // 根据处理器情况启动worker
-// return 控制命令管道, 结束型号器
-func bootWorker(source io.Reader, n int, round func([]byte) []*randomness.TestResult, counter []int32, distributions [][]float64) (chan int, *sync.WaitGroup) {
+// return 控制命令管道, 结束型号器, 随机源读取错误记录
+func bootWorker(source io.Reader, n int, round func([]byte) []*randomness.TestResult, counter []int32, distributions [][]float64) (chan int, *sync.WaitGroup, *workerFailure) {
 	var wait sync.WaitGroup
+	var failure workerFailure
 	jobs := make(chan int)
 	for i := 0; i < runtime.NumCPU(); i++ {
-		go worker(jobs, source, n, round, counter, distributions, &wait)
+		go worker(jobs, source, n, round, counter, distributions, &wait, &failure)
 	}
-	return jobs, &wait
+	return jobs, &wait, &failure
 }
 
 // FactoryDetectFast 出厂检测，15种检测，每组 10^6比特，分50组
@@ -53,13 +78,16 @@ func FactoryDetectFast(source io.Reader) (bool, error) {
 	n := 1000000 / 8
 	counters := make([]int32, 15)
 	distributions := createDistributions(s, 15)
-	jobs, wg := bootWorker(source, n, Round15, counters, distributions)
+	jobs, wg, failure := bootWorker(source, n, Round15, counters, distributions)
 	wg.Add(s)
 	defer close(jobs)
 	for i := 0; i < s; i++ {
 		jobs <- i
 	}
 	wg.Wait()
+	if err := failure.get(); err != nil {
+		return false, err
+	}
 	fmt.Println(counters)
 	for i, itemCnt := range counters {
 		if int(itemCnt) < t {
@@ -83,13 +111,16 @@ func PowerOnDetectFast(source io.Reader) (bool, error) {
 	n := 1000000 / 8
 	counters := make([]int32, 15)
 	distributions := createDistributions(s, 15)
-	jobs, wg := bootWorker(source, n, Round15, counters, distributions)
+	jobs, wg, failure := bootWorker(source, n, Round15, counters, distributions)
 	wg.Add(s)
 	defer close(jobs)
 	for i := 0; i < s; i++ {
 		jobs <- i
 	}
 	wg.Wait()
+	if err := failure.get(); err != nil {
+		return false, err
+	}
 	fmt.Println(counters)
 
 	for i, itemCnt := range counters {
@@ -115,13 +146,16 @@ func PeriodDetectFast(source io.Reader) (bool, error) {
 	n := 20000 / 8
 	counters := make([]int32, 12)
 	distributions := createDistributions(s, 12)
-	jobs, wg := bootWorker(source, n, Round12, counters, distributions)
+	jobs, wg, failure := bootWorker(source, n, Round12, counters, distributions)
 	wg.Add(s)
 	defer close(jobs)
 	for i := 0; i < s; i++ {
 		jobs <- i
 	}
 	wg.Wait()
+	if err := failure.get(); err != nil {
+		return false, err
+	}
 	fmt.Println(counters)
 	for i, itemCnt := range counters {
 		if int(itemCnt) < t {
